@@ -98,13 +98,41 @@ type c16Engine struct {
 func c16NewEngine(entry string, files map[string]string) *c16Engine {
 	e := &c16Engine{entry: entry}
 	fsys := memFS(files)
+	// files under components/ are registered as shorthand tags (components/WidgetScripts.vuego -> <widget-scripts>)
+	var comps []string
+	for _, f := range sortedKeys(files) {
+		if strings.HasPrefix(f, "components/") {
+			comps = append(comps, f)
+		}
+	}
 	switch entry {
 	case "vue", "fragment":
 		e.vue = vuego.NewVue(fsys)
+		for _, f := range comps {
+			e.vue.RegisterComponent(c16Kebab(strings.TrimSuffix(strings.TrimPrefix(f, "components/"), ".vuego")), f)
+		}
 	default:
-		e.tpl = vuego.NewFS(fsys)
+		if len(comps) > 0 {
+			e.tpl = vuego.NewFS(fsys, vuego.WithComponents())
+		} else {
+			e.tpl = vuego.NewFS(fsys)
+		}
 	}
 	return e
+}
+
+func c16Kebab(s string) string {
+	var b strings.Builder
+	for i, r := range s {
+		if r >= 'A' && r <= 'Z' {
+			if i > 0 {
+				b.WriteByte('-')
+			}
+			r += 'a' - 'A'
+		}
+		b.WriteRune(r)
+	}
+	return b.String()
 }
 
 func (e *c16Engine) render(name, body string, data map[string]any) (string, error) {
